@@ -13,7 +13,9 @@ FootprintOf(c, covered, symlinks) ==
           IN  named \cup {Sib(p) : p \in named}
      [] c.kind = "annotate-r" ->      \* covered files below the named directories and their siblings
           LET below == {p \in covered : \E d \in c.targets : StartsWithDir(p, d)}
-          IN  below \cup {Sib(p) : p \in below}
+              named == {p \in c.targets : p \in covered /\ p \notin symlinks}   \* -r with a plain file: that file
+              both  == below \cup named
+          IN  both \cup {Sib(p) : p \in both}
      [] c.kind = "convert-dep5" -> {".reuse/dep5", "REUSE.toml"}
      [] c.kind \in {"download", "download-src"} -> {"LICENSES/" \o i \o ".txt" : i \in c.targets} \cup (IF c.out = "" THEN {} ELSE {c.out})
      [] OTHER -> {}
